@@ -181,6 +181,25 @@ pub fn none_case(te: &TyEntry) -> (Sx, String) {
     (case, (te.none)())
 }
 
+pub fn parse_meta_pub(src: &str) -> Option<Meta> {
+    parse_meta(src)
+}
+
+/// a case for the `recv` driver: `(recv "Name" (meta M) oracle)`
+pub fn meta_case_with(te: &TyEntry, m: &Meta, _driver: &str, extra_oracle: Vec<Sx>) -> (Sx, String) {
+    let name = match &te.ty {
+        Sx::List(v) => v[1].clone(),
+        x => x.clone(),
+    };
+    let mut orc = match oracle_with(m, &te.kinds) {
+        Sx::List(v) => v,
+        _ => vec![atom("oracle")],
+    };
+    orc.extend(extra_oracle);
+    let case = tagged("recv", vec![name, tagged("meta", vec![ser::meta(m)]), Sx::List(orc)]);
+    (case, (te.meta)(m))
+}
+
 fn parse_meta(src: &str) -> Option<Meta> {
     syn::parse_str::<Meta>(src).ok()
 }
